@@ -168,6 +168,49 @@ def run(ctx: Ctx) -> Result:
                                                    'expected': f'{what}: verdict {base} whatever bytes-keyed entries a witness wrote before (the time is interpreter-owned)',
                                                    'observed': f'verdict {got} after the witness wrote cache[{k!r}] = {v.hex()}', 'how_to_run': './check C08 --tier quick'})
     vmrun.in_big_thread(timelocks)
+    # consequence clause, the other half: no witness can change the message a signature is checked against - neither by leaving
+    # a message-like item under the signature, nor by writing bytes keys that spell the sigfield names; and a later read of an
+    # embedder value (GET_VALUE) returns the embedder's value whatever bytes-keyed entries a witness wrote before
+    def messages():
+        from nacl.signing import SigningKey
+        F = vmrun.impl.functions(); N = G.names()
+        sk = SigningKey(bytes(range(1, 33))); pk = bytes(sk.verify_key)
+        def report(what, cache, scripts, exp, got):
+            if len(res.violations) < 20:
+                res.violations.append({'input': {'cfg': vmrun.Cfg().line(), 'cache': vmrun.cache_str(cache, False), 'scripts': [x.hex() for x in scripts], 'script': b''.join(scripts).hex()},
+                                       'expected': f'{what}: {exp}', 'observed': str(got), 'how_to_run': './check C08 --tier quick'})
+        with vmrun.Env(vmrun.Cfg()) as env:
+            for cache, flag in (({}, 0), ({'sigfield1': b'abc'}, 0), ({'sigfield1': b'abc'}, 1), ({'sigfield1': b'abc', 'sigfield2': b'de'}, 3), ({'sigfield1': b'abc', 'sigfield2': b'de'}, 2), ({'sigfield7': b''}, 0)):
+                msg = b''.join(cache[f'sigfield{i}'] for i in range(1, 9) if f'sigfield{i}' in cache and not (flag >> (i - 1)) & 1)
+                fb = bytes([flag]) if flag else b''
+                for lock in (G.push(pk) + bytes([N['CHECK_SIG'], flag]), G.push(pk) + bytes([N['CHECK_MULTISIG'], flag, 1, 1])):
+                    honest = G.push(sk.sign(msg).signature + fb)
+                    res.note_case(('message', tuple(cache), flag, lock))
+                    got = F.run_auth_scripts([honest, lock], dict(cache))
+                    if got is not True: report('signature over the flag-selected sigfields', cache, [honest, lock], True, got)
+                    for M in (b'forged', b'abc!', b'\x00', msg + b'x'):
+                        wits = {'a message-like item left under a signature over it': G.push(M) + G.push(sk.sign(M).signature + fb),
+                                'a signature over it above a message-like item': G.push(sk.sign(M).signature + fb) + G.push(M) + bytes([N['SWAP2']]),
+                                'bytes keys spelling sigfield1 / sigfield2 written first': G.push(M) + bytes([N['WRITE_CACHE'], 9]) + b'sigfield1\x01' + G.push(M) + bytes([N['WRITE_CACHE'], 9]) + b'sigfield2\x01' + G.push(sk.sign(M).signature + fb)}
+                        for what, w in wits.items():
+                            res.note_case(('message-forge', tuple(cache), flag, lock, M, what))
+                            got = F.run_auth_scripts([w, lock], dict(cache))
+                            if got is not False: report(f'witness with {what} (M = {M!r}, the covered message is {msg!r})', cache, [w, lock], False, got)
+                        w = G.push(M) + bytes([N['WRITE_CACHE'], 9]) + b'sigfield1\x01' + honest
+                        got = F.run_auth_scripts([w, lock], dict(cache))
+                        if got is not True: report('honest signature after a witness wrote the bytes key b"sigfield1"', cache, [w, lock], True, got)
+            for name, val in (('timestamp', vmrun.NOW), ('sigfield3', b'embedder'), ('input_ts', 1700000000), ('note', 'text'), ('amount', 2.5)):
+                cache = {name: val}
+                probe = bytes([N['GET_VALUE'], len(name)]) + name.encode()
+                try: base = [x.hex() for x in F.run_script(probe, dict(cache))[1].list()]
+                except BaseException as e: base = 'ERR:' + type(e).__name__
+                for forged in (b'\x01', (vmrun.NOW + 99999).to_bytes(5, 'big'), b'forged'):
+                    w = G.push(forged) + bytes([N['WRITE_CACHE'], len(name)]) + name.encode() + b'\x01'
+                    res.note_case(('value-read', name, forged))
+                    try: got = [x.hex() for x in F.run_script(w + probe, dict(cache))[1].list()]
+                    except BaseException as e: got = 'ERR:' + type(e).__name__
+                    if got != base: report(f'GET_VALUE "{name}" after a witness wrote the bytes key {name.encode()!r}', cache, [w, probe], base, got)
+    vmrun.in_big_thread(messages)
     # K5: OP_RETURN keeps its control flag under the *string* key 'returned'
     if k5_seen[0]:
         if 'K5' in known:
